@@ -201,7 +201,7 @@ def run(c, facts, tier):
                 c.ob("C12.propagate", fn.key, "%s(..) [%s]" % (name, src(cl)[:50]), ok, "error swallowed by %s; accepted only because the same elements already passed placeholder(..)? (%s) and placeholder/snippet refuse exactly the same fields (%s)" % (how, prem1 and lp < cl["l"], prem2))
             else:
                 c.ob("C12.propagate", fn.key, "%s(..) [%s]" % (name, src(cl)[:50]), False, "result is %s: an Unsupported* error from below would be lost and the construct silently dropped" % (how or "not propagated"), witness="-true -o -regex x" if name == "compile" else None)
-    c.floor("CResult call sites", nprop, 12)
+    c.floor("CResult call sites", nprop, 6)
     # C12.early: in operator arms both children are compiled on every ok path
     orows = codegen.expand(codegen.table(facts, "<Operator as TargetScheme>::compile"))
     for key, row in sorted(orows.items()):
